@@ -39,7 +39,7 @@ const BASE_UF: u64 = 3_000_000;
 
 /// wait-free event log: the position of an event IS the value of the global SeqCst counter
 struct EvLog {
-    seq: AtomicU64,
+    seq: Arc<AtomicU64>,
     slots: Vec<AtomicU64>,
     overflow: AtomicBool,
 }
@@ -51,8 +51,8 @@ fn dec(w: u64) -> (u64, usize, usize, usize) {
     ((w >> 56) & 0xF, ((w >> 40) & 0xFFFF) as usize, ((w >> 20) & 0xFFFFF) as usize, (w & 0xFFFFF) as usize)
 }
 impl EvLog {
-    fn new(cap: usize) -> Self {
-        EvLog { seq: AtomicU64::new(0), slots: (0..cap).map(|_| AtomicU64::new(0)).collect(), overflow: AtomicBool::new(false) }
+    fn new(cap: usize, seq: Arc<AtomicU64>) -> Self {
+        EvLog { seq, slots: (0..cap).map(|_| AtomicU64::new(0)).collect(), overflow: AtomicBool::new(false) }
     }
     #[inline]
     fn ev(&self, kind: u64, inst: usize, a: usize, b: usize) {
@@ -156,13 +156,39 @@ fn payload_str(p: &Payload) -> String {
     }
 }
 
+/// a fatal signal (SIGSEGV/SIGBUS/SIGILL/SIGABRT) inside a scenario is an observation (a memory
+/// fault behind a safe API), not a reason to lose the report: the faulting thread is parked inside
+/// the handler for good, the driver records the violation and stops that sub.
+static CRASHED: AtomicUsize = AtomicUsize::new(0);
+extern "C" {
+    fn signal(sig: i32, handler: usize) -> usize;
+    fn pause() -> i32;
+}
+extern "C" fn on_crash(sig: i32) {
+    CRASHED.store(sig as usize, SeqCst);
+    loop {
+        unsafe {
+            pause();
+        }
+    }
+}
+fn install_crash_handlers() {
+    for sig in [11, 7, 4, 6] {
+        unsafe {
+            signal(sig, on_crash as *const () as usize);
+        }
+    }
+}
+
 enum Outcome<T> {
+    Crashed(usize),
     Done(T),
     Panicked(String),
     Timeout,
 }
-/// run `f` in a fresh thread; give up (leaking the thread) after `secs`
-fn watchdog<T: Send + 'static>(secs: u64, f: impl FnOnce() -> T + Send + 'static) -> Outcome<T> {
+/// run `f` in a fresh thread; give up (leaking the thread) when `progress` (the scenario's event
+/// counter) has not moved for `secs` seconds: a slow, overloaded machine is not a deadlock
+fn watchdog<T: Send + 'static>(secs: u64, progress: &Arc<AtomicU64>, f: impl FnOnce() -> T + Send + 'static) -> Outcome<T> {
     let (tx, rx) = mpsc::channel();
     let h = std::thread::Builder::new().stack_size(32 << 20).spawn(move || {
         let r = catch_unwind(AssertUnwindSafe(f));
@@ -171,10 +197,24 @@ fn watchdog<T: Send + 'static>(secs: u64, f: impl FnOnce() -> T + Send + 'static
     if h.is_err() {
         return Outcome::Panicked("could not spawn scenario thread".into());
     }
-    match rx.recv_timeout(Duration::from_secs(secs)) {
-        Ok(Ok(v)) => Outcome::Done(v),
-        Ok(Err(p)) => Outcome::Panicked(payload_str(&p)),
-        Err(_) => Outcome::Timeout,
+    let mut last = (progress.load(SeqCst), Instant::now());
+    loop {
+        match rx.recv_timeout(Duration::from_millis(500)) {
+            Ok(Ok(v)) => return Outcome::Done(v),
+            Ok(Err(p)) => return Outcome::Panicked(payload_str(&p)),
+            Err(mpsc::RecvTimeoutError::Disconnected) => return Outcome::Panicked("scenario thread vanished".into()),
+            Err(mpsc::RecvTimeoutError::Timeout) => {
+                if CRASHED.load(SeqCst) != 0 {
+                    return Outcome::Crashed(CRASHED.load(SeqCst));
+                }
+                let now = progress.load(SeqCst);
+                if now != last.0 {
+                    last = (now, Instant::now());
+                } else if last.1.elapsed() >= Duration::from_secs(secs) {
+                    return Outcome::Timeout;
+                }
+            }
+        }
     }
 }
 
@@ -643,7 +683,7 @@ struct Cx {
     spawned: Vec<AtomicBool>,
     inst_panicked: Vec<AtomicBool>,
     root_ended: Vec<AtomicBool>,
-    viols: Mutex<Vec<(String, &'static str)>>,
+    viols: Arc<Mutex<Vec<(String, &'static str)>>>,
     nested_opened: AtomicUsize,
     swallowed: AtomicUsize,
     rethrown: AtomicUsize,
@@ -811,16 +851,16 @@ struct ScopeOut {
     rethrown: usize,
 }
 
-fn run_scope_scenario(sc: &ScopeScen) -> ScopeOut {
+fn run_scope_scenario(sc: &ScopeScen, seq: Arc<AtomicU64>, viols: Arc<Mutex<Vec<(String, &'static str)>>>) -> ScopeOut {
     let cap = 2 * (3 * sc.ntasks + 2 * sc.ninst) + 64;
     let cx = Cx {
-        log: EvLog::new(cap),
+        log: EvLog::new(cap, seq),
         runs: (0..sc.ntasks).map(|_| AtomicUsize::new(0)).collect(),
         fin: (0..sc.ntasks).map(|_| AtomicBool::new(false)).collect(),
         spawned: (0..sc.ntasks).map(|_| AtomicBool::new(false)).collect(),
         inst_panicked: (0..sc.ninst).map(|_| AtomicBool::new(false)).collect(),
         root_ended: (0..sc.ninst).map(|_| AtomicBool::new(false)).collect(),
-        viols: Mutex::new(Vec::new()),
+        viols,
         nested_opened: AtomicUsize::new(0),
         swallowed: AtomicUsize::new(0),
         rethrown: AtomicUsize::new(0),
@@ -873,14 +913,33 @@ fn sub_scope(o: &Opts) -> SubRep {
         let sc = Arc::new(gen_scope(seed, idx));
         let input = scope_input(&sc);
         let sc2 = sc.clone();
-        let out = match watchdog(wd_secs(o), move || run_scope_scenario(&sc2)) {
+        let seq = Arc::new(AtomicU64::new(0));
+        let seq2 = seq.clone();
+        let inflight: Arc<Mutex<Vec<(String, &'static str)>>> = Arc::new(Mutex::new(Vec::new()));
+        let inflight2 = inflight.clone();
+        let out = match watchdog(wd_secs(o), &seq, move || run_scope_scenario(&sc2, seq2, inflight2)) {
             Outcome::Done(x) => x,
             Outcome::Panicked(msg) => {
                 rep.viol(format!("scenario thread panicked outside of any scope: {msg}"), "scope-panic", &input);
                 continue;
             }
             Outcome::Timeout => {
-                rep.viol(format!("deadlock/timeout: scenario did not finish within {}s", wd_secs(o)), "scope-deadlock", &input);
+                rep.viol(format!("deadlock/timeout: scenario did not finish, no event for {}s", wd_secs(o)), "scope-deadlock", &input);
+                if let Ok(mut g) = inflight.try_lock() {
+                    for (what, key) in g.drain(..) {
+                        rep.viol(what, key, &input);
+                    }
+                }
+                rep.deadlocked = true;
+                break;
+            }
+            Outcome::Crashed(sig) => {
+                if let Ok(mut g) = inflight.try_lock() {
+                    for (what, key) in g.drain(..) {
+                        rep.viol(what, key, &input);
+                    }
+                }
+                rep.viol(format!("fatal signal {sig} (memory fault / abort) while the scenario was running"), "scope-crash", &input);
                 rep.deadlocked = true;
                 break;
             }
@@ -975,8 +1034,6 @@ struct RoOp {
 }
 #[derive(Debug)]
 struct RoScen {
-    seed: u64,
-    idx: u64,
     n: usize,
     vecvar: bool,
     write_pct: usize,
@@ -1008,12 +1065,12 @@ fn gen_rolock(seed: u64, idx: u64) -> RoScen {
     ops[0][0].write = true;
     let l = ops[1].len();
     ops[1][l - 1].write = false;
-    RoScen { seed, idx, n, vecvar, write_pct, ops }
+    RoScen { n, vecvar, write_pct, ops }
 }
 
-fn run_rolock_scenario(sc: &RoScen) -> Vec<(u64, usize, usize, usize)> {
+fn run_rolock_scenario(sc: &RoScen, seq: Arc<AtomicU64>) -> Vec<(u64, usize, usize, usize)> {
     let total: usize = sc.ops.iter().map(|v| v.len()).sum();
-    let log = EvLog::new(2 * total + 16);
+    let log = EvLog::new(2 * total + 16, seq);
     let wctr = AtomicU64::new(0);
     let barrier = Barrier::new(sc.n);
     if !sc.vecvar {
@@ -1122,14 +1179,21 @@ fn sub_rolock(o: &Opts) -> SubRep {
         let sc = Arc::new(gen_rolock(seed, idx));
         let input = json!({"sub": "rolock", "seed": seed, "index": idx, "threads": sc.n, "variant": if sc.vecvar {"vec"} else {"pair"}, "write_pct": sc.write_pct});
         let sc2 = sc.clone();
-        let evs = match watchdog(wd_secs(o), move || run_rolock_scenario(&sc2)) {
+        let seq = Arc::new(AtomicU64::new(0));
+        let seq2 = seq.clone();
+        let evs = match watchdog(wd_secs(o), &seq, move || run_rolock_scenario(&sc2, seq2)) {
             Outcome::Done(x) => x,
             Outcome::Panicked(msg) => {
                 rep.viol(format!("scenario panicked: {msg}"), "rolock-panic", &input);
                 continue;
             }
             Outcome::Timeout => {
-                rep.viol(format!("deadlock/timeout: scenario did not finish within {}s", wd_secs(o)), "rolock-deadlock", &input);
+                rep.viol(format!("deadlock/timeout: scenario did not finish, no event for {}s", wd_secs(o)), "rolock-deadlock", &input);
+                rep.deadlocked = true;
+                break;
+            }
+            Outcome::Crashed(sig) => {
+                rep.viol(format!("fatal signal {sig} (memory fault / abort) while the scenario was running"), "rolock-crash", &input);
                 rep.deadlocked = true;
                 break;
             }
@@ -1300,7 +1364,8 @@ struct VecOut {
     reader_checks: usize,
 }
 
-fn run_vec_scenario(sc: &VecScen) -> VecOut {
+fn run_vec_scenario(sc: &VecScen, prog: Arc<AtomicU64>) -> VecOut {
+    let prog = &*prog;
     let viols: Mutex<Vec<(String, &'static str)>> = Mutex::new(Vec::new());
     let v = |what: String, key: &'static str| {
         let mut g = viols.lock().unwrap_or_else(|e| e.into_inner());
@@ -1332,6 +1397,7 @@ fn run_vec_scenario(sc: &VecScen) -> VecOut {
                         for c in cl {
                             let start = if c.slice { pvw.write_slice(&c.items) } else { pvw.write_contents(c.items.iter().copied()) };
                             mine.push((c.cid, start));
+                            prog.fetch_add(1, SeqCst);
                             if c.verify {
                                 let ra = pvw.unsafe_read_access();
                                 let s = unsafe { ra.get_unchecked_slice(start..start + c.items.len()) };
@@ -1439,6 +1505,7 @@ fn run_vec_scenario(sc: &VecScen) -> VecOut {
                         for j in 0..*n {
                             let val = t * 64 + j + 1;
                             mine.push((val, cv.push(val)));
+                            prog.fetch_add(1, SeqCst);
                         }
                         pushed.lock().unwrap().extend(mine);
                     }));
@@ -1528,6 +1595,7 @@ fn run_vec_scenario(sc: &VecScen) -> VecOut {
                             barrier.wait();
                             for i in ids {
                                 nl.notify(NId::from_usize(*i));
+                                prog.fetch_add(1, SeqCst);
                             }
                         });
                     }
@@ -1573,14 +1641,21 @@ fn sub_vec(o: &Opts) -> SubRep {
         };
         let input = json!({"sub": "vec", "seed": seed, "index": idx, "kind": kind});
         let sc2 = sc.clone();
-        let out = match watchdog(wd_secs(o), move || run_vec_scenario(&sc2)) {
+        let seq = Arc::new(AtomicU64::new(0));
+        let seq2 = seq.clone();
+        let out = match watchdog(wd_secs(o), &seq, move || run_vec_scenario(&sc2, seq2)) {
             Outcome::Done(x) => x,
             Outcome::Panicked(msg) => {
                 rep.viol(format!("scenario panicked: {msg}"), "vec-panic", &input);
                 continue;
             }
             Outcome::Timeout => {
-                rep.viol(format!("deadlock/timeout: scenario did not finish within {}s", wd_secs(o)), "vec-deadlock", &input);
+                rep.viol(format!("deadlock/timeout: scenario did not finish, no event for {}s", wd_secs(o)), "vec-deadlock", &input);
+                rep.deadlocked = true;
+                break;
+            }
+            Outcome::Crashed(sig) => {
+                rep.viol(format!("fatal signal {sig} (memory fault / abort) while the scenario was running"), "vec-crash", &input);
                 rep.deadlocked = true;
                 break;
             }
@@ -1623,8 +1698,6 @@ enum UOp {
 }
 #[derive(Debug)]
 struct UfScen {
-    seed: u64,
-    idx: u64,
     kind: &'static str,
     n_ids: usize,
     cap: usize,
@@ -1650,7 +1723,7 @@ fn gen_uf(seed: u64, idx: u64) -> UfScen {
             let k = r.range(10, 60);
             let mut v = Vec::new();
             for _ in 0..k {
-                let mut id = |r: &mut Rng| if r.chance(1, 2) { r.below(hot) } else { r.below(n_ids) };
+                let id = |r: &mut Rng| if r.chance(1, 2) { r.below(hot) } else { r.below(n_ids) };
                 let x = r.below(100);
                 v.push(if x < 45 {
                     UOp::Union(id(&mut r), id(&mut r))
@@ -1738,7 +1811,7 @@ fn gen_uf(seed: u64, idx: u64) -> UfScen {
             ops.push(v);
         }
     }
-    UfScen { seed, idx, kind, n_ids, cap, use_pool, setup, ops }
+    UfScen { kind, n_ids, cap, use_pool, setup, ops }
 }
 
 #[derive(Debug, Clone)]
@@ -1776,9 +1849,9 @@ fn uf_apply(uf: &UnionFind<UId>, clock: &EvLog, t: usize, op: UOp) -> URec {
     URec { t, op, inv, ret, r1, r2, rb }
 }
 
-fn run_uf_scenario(sc: &UfScen) -> UfOut {
+fn run_uf_scenario(sc: &UfScen, seq: Arc<AtomicU64>) -> UfOut {
     let uf: UnionFind<UId> = UnionFind::with_capacity(sc.cap);
-    let clock = EvLog::new(0);
+    let clock = EvLog::new(0, seq);
     let mut recs: Vec<URec> = Vec::new();
     for (a, b) in &sc.setup {
         recs.push(uf_apply(&uf, &clock, usize::MAX, UOp::Union(*a, *b)));
@@ -1882,14 +1955,21 @@ fn sub_uf(o: &Opts) -> SubRep {
         let sc = Arc::new(gen_uf(seed, idx));
         let input = json!({"sub": "uf", "seed": seed, "index": idx, "kind": sc.kind, "threads": sc.ops.len(), "ids": sc.n_ids, "capacity": sc.cap, "on_pool": sc.use_pool});
         let sc2 = sc.clone();
-        let out = match watchdog(wd_secs(o), move || run_uf_scenario(&sc2)) {
+        let seq = Arc::new(AtomicU64::new(0));
+        let seq2 = seq.clone();
+        let out = match watchdog(wd_secs(o), &seq, move || run_uf_scenario(&sc2, seq2)) {
             Outcome::Done(x) => x,
             Outcome::Panicked(msg) => {
                 rep.viol(format!("scenario panicked: {msg}"), "uf-panic", &input);
                 continue;
             }
             Outcome::Timeout => {
-                rep.viol(format!("deadlock/timeout: scenario did not finish within {}s", wd_secs(o)), "uf-deadlock", &input);
+                rep.viol(format!("deadlock/timeout: scenario did not finish, no event for {}s", wd_secs(o)), "uf-deadlock", &input);
+                rep.deadlocked = true;
+                break;
+            }
+            Outcome::Crashed(sig) => {
+                rep.viol(format!("fatal signal {sig} (memory fault / abort) while the scenario was running"), "uf-crash", &input);
                 rep.deadlocked = true;
                 break;
             }
@@ -1905,24 +1985,55 @@ fn sub_uf(o: &Opts) -> SubRep {
         let unions: Vec<(usize, usize, u64, u64)> =
             out.recs.iter().filter_map(|r| if let UOp::Union(a, b) = r.op { Some((a, b, r.inv, r.ret)) } else { None }).collect();
         rep.bump("unions_per_case_hist", bucket(unions.len(), 50));
-        let started = |t: u64| {
+        // facts per record, computed by two incremental sweeps:
+        //   s_ok   : the connectivity the result claims holds in P_started(t_ret)
+        //            (partition generated by the unions invoked before this op returned)
+        //   d_same / d_min : connectivity of the arguments / least member of x's class in P_done(t_inv)
+        //            (partition generated by the unions that had returned before this op was invoked)
+        let m = out.recs.len();
+        let mut s_ok = vec![true; m];
+        let mut d_same = vec![false; m];
+        let mut d_min = vec![usize::MAX; m];
+        {
+            let mut us: Vec<&(usize, usize, u64, u64)> = unions.iter().collect();
+            us.sort_by_key(|u| u.2);
+            let mut qs: Vec<usize> = (0..m).collect();
+            qs.sort_by_key(|i| out.recs[*i].ret);
             let mut d = Dsu::new(n);
-            for (a, b, inv, _) in &unions {
-                if *inv < t {
-                    d.union(*a, *b);
+            let mut k = 0;
+            for i in qs {
+                let r = &out.recs[i];
+                while k < us.len() && us[k].2 < r.ret {
+                    d.union(us[k].0, us[k].1);
+                    k += 1;
+                }
+                s_ok[i] = match r.op {
+                    UOp::Find(x) => r.r1 < n && d.same(r.r1, x),
+                    UOp::Same(a, b) => d.same(a, b),
+                    UOp::Union(a, _) => r.r1 < n && r.r2 < n && d.same(r.r1, a) && d.same(r.r2, a),
+                };
+            }
+        }
+        {
+            let mut us: Vec<&(usize, usize, u64, u64)> = unions.iter().collect();
+            us.sort_by_key(|u| u.3);
+            let mut qs: Vec<usize> = (0..m).collect();
+            qs.sort_by_key(|i| out.recs[*i].inv);
+            let mut d = Dsu::new(n);
+            let mut k = 0;
+            for i in qs {
+                let r = &out.recs[i];
+                while k < us.len() && us[k].3 < r.inv {
+                    d.union(us[k].0, us[k].1);
+                    k += 1;
+                }
+                match r.op {
+                    UOp::Find(x) => d_min[i] = d.min_of(x),
+                    UOp::Same(a, b) => d_same[i] = d.same(a, b),
+                    UOp::Union(..) => {}
                 }
             }
-            d
-        };
-        let done = |t: u64| {
-            let mut d = Dsu::new(n);
-            for (a, b, _, ret) in &unions {
-                if *ret < t {
-                    d.union(*a, *b);
-                }
-            }
-            d
-        };
+        }
         let mut reported: HashSet<&'static str> = HashSet::new();
         let mut bad = |rep: &mut SubRep, key: &'static str, what: String| {
             if reported.insert(key) {
@@ -1945,38 +2056,35 @@ fn sub_uf(o: &Opts) -> SubRep {
             bad(&mut rep, "uf-final", q.clone());
         }
         // per-operation necessary conditions of linearizability
-        for r in &out.recs {
+        for (i, r) in out.recs.iter().enumerate() {
             match r.op {
                 UOp::Find(x) => {
                     rep.bump("op_hist", "find");
                     let res = r.r1;
-                    let mut s = started(r.ret);
-                    let mut d = done(r.inv);
                     if res > x || res >= n {
                         bad(&mut rep, "uf-find", format!("find({x}) = {res} is larger than its argument"));
-                    } else if !s.same(res, x) {
+                    } else if !s_ok[i] {
                         bad(&mut rep, "uf-find", format!("find({x}) = {res}, not connected to {x} by the unions started before it returned"));
-                    } else if res > d.min_of(x) {
-                        bad(&mut rep, "uf-find", format!("find({x}) = {res}, but unions completed before the call already connect {x} to {}", d.min_of(x)));
+                    } else if res > d_min[i] {
+                        bad(&mut rep, "uf-find", format!("find({x}) = {res}, but unions completed before the call already connect {x} to {}", d_min[i]));
                     }
                 }
                 UOp::Same(a, b) => {
                     rep.bump("op_hist", if r.rb { "same_set_true" } else { "same_set_false" });
                     if r.rb {
-                        if !started(r.ret).same(a, b) {
+                        if !s_ok[i] {
                             bad(&mut rep, "uf-sameset-true", format!("same_set({a},{b}) = true but no unions started before it returned connect them"));
                         }
-                    } else if done(r.inv).same(a, b) {
+                    } else if d_same[i] {
                         bad(&mut rep, "uf-sameset-false", format!("same_set({a},{b}) = false although unions completed before the call connect them"));
                     }
                 }
                 UOp::Union(a, b) => {
                     rep.bump("op_hist", "union");
                     let (p, c) = (r.r1, r.r2);
-                    let mut s = started(r.ret);
                     if p > c || c >= n {
                         bad(&mut rep, "uf-union", format!("union({a},{b}) returned (parent {p}, child {c}): parent is not the smaller id"));
-                    } else if !s.same(p, a) || !s.same(c, a) {
+                    } else if !s_ok[i] {
                         bad(&mut rep, "uf-union", format!("union({a},{b}) returned ({p},{c}), not both connected to the arguments by unions started before it returned"));
                     } else if p > a.min(b) {
                         bad(&mut rep, "uf-union", format!("union({a},{b}) returned parent {p}, larger than an argument"));
@@ -2062,6 +2170,7 @@ fn rep_json(r: &SubRep) -> Value {
 fn main() {
     let o = verif_harness::parse_opts();
     std::panic::set_hook(Box::new(|_| {}));
+    install_crash_handlers();
     let t0 = Instant::now();
     let mut only: Option<String> = None;
     let mut i = 0;
